@@ -1,5 +1,6 @@
 import inspect
 import sys
+import threading
 from collections import defaultdict
 from collections.abc import Callable, Iterator, Mapping, Sequence
 from enum import Enum
@@ -34,6 +35,9 @@ evaluations: dict[str, Callable] = {
     XmlType.ATTRIBUTE: evaluate_attribute,
     XmlType.ATTRIBUTES: evaluate_attributes,
 }
+
+
+type_hints_lock = threading.RLock()
 
 
 class ClassMeta:
@@ -122,12 +126,18 @@ class XmlMetaBuilder:
         self.class_type.verify_model(clazz)
 
         meta = self.build_class_meta(clazz, parent_namespace)
-        class_vars = self.build_vars(
-            clazz,
-            meta.namespace,
-            meta.element_name_generator,
-            meta.attribute_name_generator,
-        )
+        with type_hints_lock:
+            # The typing module shares one forward reference object between
+            # all the modules that spell an annotation the same way, its
+            # evaluation is not safe to run from two threads at once
+            class_vars = list(
+                self.build_vars(
+                    clazz,
+                    meta.namespace,
+                    meta.element_name_generator,
+                    meta.attribute_name_generator,
+                )
+            )
 
         attributes = {}
         elements: dict[str, list[XmlVar]] = defaultdict(list)
